@@ -38,6 +38,10 @@ CLAIMED = {
          "Exploration by runtime monitoring with two sanitizer-style oracles: (1) the server built with -race is flooded with overlapping queries (10 kinds) and mutators (didChange/didSave/didOpen/didClose/watched/configuration) that are never awaited, each phase repeated; every DATA RACE block is classified by handler pair (telemetry-only state is counted, not alarmed); (2) the client-side history is checked with porcupine against a model whose state is the number of mutators applied and whose expected answers come from replaying the same mutators sequentially on a fresh server (twice, unstable entries dropped). A death under flood is a violation as well.",
          "Schedules are sampled by flooding and repetition, not enumerated; the evidence lists the (query kind x mutator kind) overlaps observed. The file system is constant inside a flood so that the sequential model is exact; empty highlight answers are exempt (wall-clock throttle).",
          "DESIGN.md 3/C10"),
+ "C08": ("differential online monitor: folded publishDiagnostics view and probe answers of a long-lived server vs a fresh server on the same directory at every quiescent point; buffer-only parse for dirty documents",
+         "Exploration by runtime monitoring, differential oracle without a model: generated histories of file creations, external changes, deletions (with watched-file notifications), opens, unsaved edits, saves and closes over 3-6 files with 11 content variants each; after every event the client view is either compared with a fresh server started on the current directory (quiescent points: diagnostics per file as multisets, plus definition/hover/documentSymbol probes on open documents) or, for documents with unsaved edits, with the buffer's own syntax errors / the saved file's non-syntax diagnostics.",
+         "Assumes a fresh server is the reference (its own correctness is the business of the other properties) and unique names per file so that C09's tie-breaking cannot blur the comparison. External changes of a dirty document are checked only up to finding C08-K1.",
+         "DESIGN.md 3/C08"),
 }
 
 PENDING_REASON = "check not built yet in this revision of /verif (work in progress; see DESIGN.md section 3 for the planned monitor)"
